@@ -8,7 +8,7 @@ TECHNIQUE = 'runtime monitoring under a deterministic cooperative scheduler with
 RULE = ('2-5 timed sources (some sharing a signal name) on a started ActiveObject; at a virtual instant that coincides with a posting instant of '
         'a source in half of the runs (so canceller and timer thread are runnable together) cancel_event(id) or cancel_events(event) is called '
         'from outside or from inside a handler, with the id / signal-name object either identical to what miros returned or EQUAL BUT NOT '
-        'IDENTICAL (rebuilt by join / encode-decode / JSON round trip, as if received over a network); in 40% of the runs a further thread arms an unrelated timed source at the very instant of the cancel; in a quarter of the outside runs a SECOND thread makes the same cancelling call at the same instant (the first timer thread that posts from then on is held in the middle of its post by an injected delay): after whichever call returns first the target must be silent; in a fifth of the runs the object (a subclass with a small QUEUE_SIZE) can track exactly one more source than it already has and TWO threads arm one each just before the cancel of the oldest source: one must be refused and every accepted source must stay cancellable. Checked from the deque operation log: '
+        'IDENTICAL (rebuilt by join / encode-decode / JSON round trip, as if received over a network); in 40% of the runs a further thread arms an unrelated timed source at the very instant of the cancel; in a quarter of the outside runs a SECOND thread makes the same cancelling call at the same instant (the first timer thread that posts from then on is held in the middle of its post by an injected delay): after whichever call returns first the target must be silent; in a fifth of the runs a NAMESAKE of the target is armed by another thread at the instant of cancel_events, that thread being held for a moment at a random line of the arming call (injected delay) so that the cancel runs to completion in the middle of it: a source armed before the cancel call began must be silent once it returned, and any other must be silent for good once the NEXT cancel_events for its name returned; in a fifth of the runs the object (a subclass with a small QUEUE_SIZE) can track exactly one more source than it already has and TWO threads arm one each just before the cancel of the oldest source: one must be refused and every accepted source must stay cancellable. Checked from the deque operation log: '
         'no append of a cancelled source after the step at which the cancel call returned; exactly the targeted sources stop; every other '
         'source has its ideal number of postings at the horizon. distinct_nontrivial = distinct (cancel mode, inside/outside, identical or '
         'rebuilt, coincident instant, context-switch sequence) tuples')
@@ -16,7 +16,7 @@ CASES = {'quick': 1500, 'thorough': 80000}
 BUDGET = {'quick': 150, 'thorough': 300}
 REQUIRE = {'runs': 600, 'cancel_by_id': 200, 'cancel_by_name': 200, 'cancel_from_handler': 150, 'rebuilt_argument': 200, 'cancel_coincides_with_posting': 200,
            'timer_and_canceller_runnable_together': 50, 'source_armed_during_cancel': 200,
-           'runs_under_capacity_pressure': 100, 'overlapping_cancellations': 100, 'capacity_pressure_one_of_two_refused': 80}
+           'runs_under_capacity_pressure': 100, 'overlapping_cancellations': 100, 'capacity_pressure_one_of_two_refused': 80, 'namesake_armed_during_cancel': 80, 'namesake_armed_while_the_cancel_ran': 30}
 ASSUME = ['instantaneous-computation time model (clock advances only at quiescence)']
 ANNOUNCE_CASES = True
 
@@ -94,10 +94,32 @@ def run_case(ctx, n):
           armers.append(ds.SThread(target=arm))
           armers[-1].start()
         ctx.count('source_armed_during_cancel')
+      # a NAMESAKE of the target is armed by another thread at the very instant of cancel_events (a sixth of the runs): the
+      # arming thread is held for a moment at a random line of the arming call (injected delay), so that the cancelling call
+      # runs to completion in the middle of it.  Whether the cancel reaches that source is not prescribed - but a source
+      # armed before the cancel call began must be silent afterwards, and a source the cancel did not reach must still be
+      # there for the NEXT cancel_events: after that one returned it must be silent for good
+      racer = None
+      if mode == 'name' and not inside and not pressure and rng.random() < 0.5:
+        racer = {'i': len(sources), 'sig': sources[target]['sig'], 'kind': rng.choice(['fifo', 'lifo']), 'period': rng.choice([0.01, 0.02, 0.05]),
+                 'times': rng.choice([0, 0, 40]), 'deferred': rng.choice([True, False, None]), 'start_delay': 0.0, 'racing': True}
+        sources.append(racer)
+        ctx.count('namesake_armed_during_cancel')
+        if rng.random() < 0.85:
+          s.inject = {'match': lambda me, loc: me.role == 'arm_namesake' and isinstance(loc, tuple) and loc[0] == '__post_event',
+                      'visit': rng.randint(1, 44) if rng.random() < 0.5 else rng.randint(28, 44), 'sleep': 0.0005}     # (the arming call has ~42 yield points; its tail, where the source becomes visible to cancellers, is visited more often)
+
+        def arm_namesake():
+          ds.STime.sleep(max(0.0, tc - ds.S.clock))
+          racer['arm_call'] = ds.S.steps
+          timersim.start_source(ao, run, racer)
+          racer['arm_ret'] = ds.S.steps
+        armers.append(ds.SThread(target=arm_namesake))
+        armers[-1].start()
       # overlapping cancellations (a quarter of the outside runs): a second thread cancels the same target(s) at the same
       # instant; in most of these runs the first timer thread that posts from then on is held in the middle of its post
       # (it keeps its per-source lock) by an injected delay, so that both cancelling calls meet a source that is busy
-      double = (not inside) and (not pressure) and rng.random() < 0.25
+      double = (not inside) and (not pressure) and racer is None and rng.random() < 0.25
       canceller2 = None
       if double:
         ctx.count('overlapping_cancellations')
@@ -124,6 +146,12 @@ def run_case(ctx, n):
       ds.STime.sleep(horizon - s.clock)
       for armer in armers:
         armer.join()
+      if racer is not None:
+        # the NEXT cancel_events for that name, made when everything else has settled
+        racer['second_cancel_call'] = ds.S.steps
+        ao.cancel_events(Event(signal=timersim.rebuild_equal(rng, racer['sig']) if rebuilt else racer['sig']))
+        racer['second_cancel_ret'] = ds.S.steps
+        ds.STime.sleep(rng.choice([0.07031, 0.30117]))
     except ds.Verdict as v:
       ctx.violation('C11/' + v.kind, 'scenario ended in %s: %r' % (v.kind, v.info), {'sources': len(sources)})
       return
@@ -164,6 +192,24 @@ def run_case(ctx, n):
       if i in run.raised:
         if mine:
           ctx.count('other_property_disagreements')    # a refused source that posts is C31's business
+        continue
+      if src.get('racing'):
+        if s.inject:
+          ctx.maxc('yield_points_inside_the_arming_call', s.inject.get('seen', 0))
+        if 'arm_ret' not in src or 'second_cancel_ret' not in src:
+          ctx.count('other_property_disagreements')
+          continue
+        if src['arm_ret'] < cancel_rec['call']:
+          ctx.count('namesake_armed_before_the_cancel_call')
+          ref, which = cancel_rec['ret'], 'the cancelling call (the source was armed before that call began)'
+        else:
+          ctx.count('namesake_armed_while_the_cancel_ran' if src['arm_call'] < cancel_rec['ret'] else 'namesake_armed_after_the_cancel_returned')
+          ref, which = src['second_cancel_ret'], 'the NEXT cancel_events call for its name (it was armed while the first one ran)'
+        late = [p for p in mine if p[2] > ref]
+        if late:
+          ctx.violation('C11/source-armed-during-cancel-escapes-every-cancel', 'source %d (%s, armed by another thread at the instant of cancel_events) posted %d more times after %s had returned at step %d; tracked sources now: %d' % (
+            i, src['sig'], len(late), which, ref, len(ao.posted_events_queue)), dict(wit, late_postings=late[:5], injected_delay=(s.inject or {}).get('at')))
+          return
         continue
       ideal = timersim.expected_instants(src, run.t0[i], now)
       if i in cancelled:
